@@ -346,6 +346,29 @@ func (p *prov) load(addr ssa.Value, d int) []string {
 	switch a := addr.(type) {
 	case *ssa.Alloc:
 		return p.loadFrom(a, nil, d)
+	case *ssa.FreeVar:
+		// a captured variable: what the enclosing function keeps in it
+		fn := a.Parent()
+		if parent := fn.Parent(); parent != nil {
+			var out []string
+			for i, fv := range fn.FreeVars {
+				if fv != a {
+					continue
+				}
+				for _, b := range parent.Blocks {
+					for _, ins := range b.Instrs {
+						if mc, ok := ins.(*ssa.MakeClosure); ok && mc.Fn == ssa.Value(fn) {
+							if al, ok := mc.Bindings[i].(*ssa.Alloc); ok {
+								out = append(out, p.loadFrom(al, nil, d+1)...)
+							}
+						}
+					}
+				}
+			}
+			if len(out) > 0 {
+				return uniq(out)
+			}
+		}
 	case *ssa.FieldAddr:
 		// walk up to a local root collecting the field path
 		var path []*types.Var
@@ -568,6 +591,7 @@ func (p *prov) call(x *ssa.Call, d int) []string {
 func fieldsOf(in []string, name string) []string {
 	var out []string
 	for _, s := range in {
+		s = strings.TrimPrefix(s, "&") // a literal handed on by address: same fields
 		if strings.HasPrefix(s, "lit{") && strings.HasSuffix(s, "}") {
 			body := s[4 : len(s)-1]
 			depth := 0
